@@ -254,16 +254,17 @@ Ltac step_trans Hstep f Ht :=
 Ltac upd_cases Hy :=
   match type of Hy with
   | get (apply_eff ?s ?f) ?j = Some ?y =>
-      let Hl := fresh "Hl" in let Hn := fresh "Hn" in
+      let Hl := fresh "Hl" in let Hn := fresh "Hn" in let Hj := fresh "Hj" in
       first [ rewrite (get_apply_none s f j eq_refl) in Hy
-            | destruct (get_apply_some s f _ _ j y eq_refl Hy) as [(-> & -> & Hl)|(Hn & Hy')]; [clear Hy|clear Hy] ]
+            | destruct (get_apply_some s f _ _ j y eq_refl Hy) as [(Hj & -> & Hl)|(Hn & Hy')];
+              [clear Hy; first [subst j | rewrite Hj in * ] | clear Hy] ]
   end.
 
 Lemma op_ok_apply s f i x : op_ok s i x -> op_ok (apply_eff s f) i x.
 Proof.
   unfold op_ok. destruct (n_op x); auto.
   - intros (h1 & h2 & h3 & h4 & h5 & h6 & h7 & h8). repeat split; auto using voter_mono. cbn. apply in_or_app; auto.
-  - intros (h1 & h2 & h3 & h4). repeat split; auto. cbn. apply in_or_app; auto.
+  - intros (h1 & h2 & h3 & h4 & h5). repeat split; auto. cbn. apply in_or_app; auto.
   - intros (h1 & h2 & h3 & h4 & h5 & h6). repeat split; auto. cbn. apply in_or_app; auto.
 Qed.
 
@@ -390,7 +391,7 @@ Lemma op_ok_mono i x : op_ok s i x -> op_ok s' i x.
 Proof.
   unfold op_ok. destruct (n_op x); auto.
   - intros (h1 & h2 & h3 & h4 & h5 & h6 & h7 & h8). repeat split; auto using sent_mono, voter_step.
-  - intros (h1 & h2 & h3 & h4). repeat split; auto using sent_mono.
+  - intros (h1 & h2 & h3 & h4 & h5). repeat split; auto using sent_mono.
   - intros (h1 & h2 & h3 & h4 & h5 & h6). repeat split; auto using sent_mono.
 Qed.
 
@@ -460,7 +461,7 @@ Proof.
           match goal with Hq : n_cs (accept_new _ _ _ _) = _ |- _ => rewrite accept_new_cs in Hq; cbn in Hq; rewrite c1 in Hq; discriminate end. }
         right. split; auto. destruct h8 as [(c1 & c2 & c3)|(c1 & c2)]; lia.
       * destruct (recv_noinst _ _ _ _ _ _ _ H3 eq_refl) as (n1 & n2 & n3 & n4). rewrite n1, n3, n4. auto.
-    + destruct Hop as (h1 & h2 & h3 & h4). repeat split; auto. cbn. apply in_or_app; auto.
+    + destruct Hop as (h1 & h2 & h3 & h4 & h5). repeat split; auto. cbn. apply in_or_app; auto.
     + destruct Hop as (h1 & h2 & h3 & h4 & h5 & h6). repeat split; auto. { cbn. apply in_or_app; auto. }
       destruct inst.
       * destruct (recv_inst _ _ _ _ _ _ _ H3 eq_refl) as (i1 & i2 & i3 & i4).
@@ -502,8 +503,8 @@ Proof.
            pose proof (IA5 s I p x H2 Er). rewrite H3, H0 in H5. specialize (H5 H1). lia.
         -- repeat split; auto. { cbn. apply in_or_app; auto. } intros; apply voter_mono; auto.
       * cbn [n_op set_op]. rewrite ?f2, ?f3. repeat split; auto. { cbn. apply in_or_app; auto. } intros; apply voter_mono; auto.
-    + destruct Hop as (h1 & h2 & h3 & h4).
-      destruct (req_eqb m0 m && negb (mem j acks)); cbn [n_op set_op]; rewrite ?f2; repeat split; auto; cbn; apply in_or_app; auto.
+    + destruct Hop as (h1 & h2 & h3 & h4 & h5).
+      destruct (req_eqb m0 m && negb (mem j acks)); cbn [n_op set_op]; rewrite ?f2, ?f3; repeat split; auto; cbn; apply in_or_app; auto.
     + destruct Hop as (h1 & h2 & h3 & h4 & h5 & h6).
       assert (Hcs : (n_ver (learn_node x p) = ov /\ n_cs (learn_node x p) = HasPre /\ n_tpc (learn_node x p) = false /\
                      r_val m0 = n_val (learn_node x p)) \/ ov < n_ver (learn_node x p)).
@@ -549,13 +550,13 @@ Proof.
   destruct Ht; try (rewrite get_apply_none in Hy by reflexivity; left; assert (y = x) by congruence; subst; auto 10);
     (upd_cases Hy; [|left; assert (y = x) by congruence; subst; auto 10]);
     match goal with H : get s _ = Some ?n |- _ => rewrite H in Hx; inversion Hx; subst end;
-    try (left; cbn; unfold enter_cs; destruct (n_cs x); cbn; auto 10; fail).
+    try (left; unfold enter_cs; cbn; destruct (n_cs x); cbn; auto 10; fail).
   - (* deliver *) right. left. exists m, p, inst. repeat split; auto.
   - (* reply *)
     unfold learn_node. destruct (learns x p) eqn:El; [|left; cbn; auto 10].
     right. right. left. exists p. unfold learns in El. apply andb_true_iff in El as [E1 E2].
     cbn. rewrite accept_new_ver, accept_new_old, accept_new_acc, accept_new_stimes, accept_new_tpc.
-    repeat split; auto; try lia. apply negb_true_iff; auto.
+    repeat split; auto; try lia; try (apply negb_true_iff; auto); try congruence.
   - (* own commit *) right. right. right. exists m, acks. cbn. auto 10.
 Qed.
 
@@ -567,7 +568,7 @@ Proof.
   - rewrite h1, h4. apply Hp. congruence.
   - destruct (recv_tpc _ _ _ _ _ _ _ h3 Ht) as [(t1 & t2 & t3)|(t1 & t2 & t3)].
     + rewrite t2. destruct (Hp t1). split; auto. destruct t3; lia.
-    + rewrite t1. cbn. destruct (transported_same (cfg tr) s m) as (_ & _ & _ & e & _). split; auto. lia.
+    + rewrite t1. cbn. destruct (transported_same (cfg tr) s m) as (_ & _ & _ & ev & _). split; auto. lia.
   - rewrite h9 in Ht. apply andb_true_iff in Ht as [t1 t2]. destruct (Hp t1). rewrite h7, h5. split; auto.
     apply negb_true_iff in t2. lia.
   - exfalso. pose proof (IB1 s I i x Hx) as Hop. unfold op_ok in Hop. rewrite h1 in Hop.
@@ -586,9 +587,9 @@ Proof.
     then exists m, In m (g_sent s') /\ r_type m = RPre /\ a_from (n_acc y) = r_from m /\ a_ver (n_acc y) = r_ver m
     else a_ver (n_acc y) = 0).
   { intros ->. destruct (a_set (n_acc x)); auto. destruct Hp as (m & h1 & h2). exists m. split; auto. apply sent_mono; auto. }
-  destruct (acc_change i x y Hx Hy) as [(h1 & h2 & h3 & h4 & h5)|[(m & p & inst & h1 & h2 & h3)|[(p & h1 & h2 & h3 & h4 & h5 & h6 & h7 & h8 & h9)|(m & acks & h1 & h2 & h3 & h4 & h5 & h6)]]]; auto.
-  destruct (recv_acc _ _ _ _ _ _ _ h3) as [e|(e & e2)]; auto.
-  rewrite e. cbn. destruct (transported_same (cfg tr) s m) as (_ & _ & e3 & e4 & _).
+  destruct (acc_change i x y Hx Hy) as [(h1 & h2 & h3 & h4 & h5)|[(m & p & inst & h1 & h2 & h3)|[(p & h1 & h2 & h3 & h4 & h5 & h6 & h7 & h8 & h9)|(m & acks & h1 & h2 & h3 & h4 & h5 & h6)]]]; try (apply Hsame; assumption).
+  destruct (recv_acc _ _ _ _ _ _ _ h3) as [ea|(ea & ea2)]; [apply Hsame; assumption|].
+  rewrite ea. cbn. destruct (transported_same (cfg tr) s m) as (_ & _ & e3 & e4 & _).
   exists m. repeat split; auto. apply sent_mono; auto.
 Qed.
 
@@ -603,3 +604,5 @@ Proof.
   destruct (recv_stime _ _ _ _ _ _ _ w (transported_same _ _ _) h3) as [->|(-> & -> & _)]; [lia|].
   destruct (IA1 s I m h1) as (_ & _ & h). specialize (h xw Hxw). lia.
 Qed.
+
+End Preservation.
